@@ -48,8 +48,14 @@ Definition build_float64_raw (exponent : Z) (sp1 : f64) : f64 :=
                  (N.land (bits_of_f64 sp1) significand_mask)).
 (* repaired (F9): a significand that rounding has brought up to 2 is the first value of the next binade
    (`if significandPlusOne >= 2 { exponent++; significandPlusOne /= 2 }`); build_float64_raw is the code before that repair *)
+(* repaired (F11): a significand that rounding errors have brought below 1 (its fraction bits would be all ones) counts as 1
+   (`else if significandPlusOne < 1 { significandPlusOne = 1 }`); build_float64_f9 is the code before that repair *)
+Definition build_float64_f9 (exponent : Z) (sp1 : f64) : f64 :=
+  if fle c_two sp1 then build_float64_raw (exponent + 1) (fdiv sp1 c_two)
+  else build_float64_raw exponent sp1.
 Definition build_float64 (exponent : Z) (sp1 : f64) : f64 :=
   if fle c_two sp1 then build_float64_raw (exponent + 1) (fdiv sp1 c_two)
+  else if flt sp1 f64_one then build_float64_raw exponent f64_one
   else build_float64_raw exponent sp1.
 
 Section Libm.
